@@ -126,6 +126,8 @@ func goVal(x any) any {
 		return out
 	case "struct":
 		return struct{}{}
+	case "simple":
+		return cbor.SimpleValue(num(v["v"]))
 	case "cwt":
 		ps, _ := v["ps"].([]any)
 		out := cose.CWTClaims{}
@@ -291,6 +293,8 @@ func project(x any) any {
 		return J{"t": "csigs", "xs": xs}
 	case cbor.Tag:
 		return J{"t": "tag", "n": v.Number, "x": project(v.Content)}
+	case cbor.SimpleValue:
+		return J{"t": "simple", "v": int(v)}
 	case big.Int:
 		return J{"t": "bigint", "s": v.String()}
 	case *big.Int:
